@@ -3,13 +3,13 @@
    method: add / remove / get (cookies) / poll (a registration's expiry timer fires).
    Implementation-shaped state: registrations_for_peer (a bijection (peer, ns) <-> id), registrations (id -> entry),
    one timer per id ever added, the cookie cache reduced to the most recent cookie.
-   `Today` = TRUE transcribes the admission test and the refresh handling before the repair (DESIGN 7-16): the
-   refresh is counted against the per-peer limit, the total limit is tested with `>`, and the superseded entry
-   stays in `registrations` until its own timer fires. It is the canary of this model. *)
+   Today = TRUE transcribes the admission test and the refresh handling before the repair (DESIGN 7-16): the
+   refresh is counted against the per-peer limit, the total limit is tested with >, and the superseded entry
+   stays in registrations until its own timer fires. It is the canary of this model. *)
 EXTENDS Naturals, FiniteSets, TLC
 CONSTANTS Peers, Namespaces, MaxId, MinTtl, MaxTtl, MaxPerPeer, MaxTotal, Today
 VARIABLES rfp,         \* <<peer, ns>> -> id of the current registration, 0 if none   (registrations_for_peer)
-          store,       \* id -> <<peer, ns>> for ids in `registrations`, <<>> otherwise
+          store,       \* id -> <<peer, ns>> for ids in registrations, <<>> otherwise
           timers,      \* ids whose expiry timer is still pending (next_expiry)
           cookie,      \* set of ids already returned under the most recent cookie
           nextId,
